@@ -29,7 +29,7 @@ ASSUMPTIONS = ['bit damage inside an index file is outside the guarantee (statem
                'cannot exist under the prefix crash model',
                'iterator() of a read-only storage over a torn tail may raise CorruptedDataError (documented '
                'behaviour of FileIterator); all other queries must agree']
-BUDGET = {'quick': {'examples': 1000, 'workers': 8},
+BUDGET = {'quick': {'examples': 1300, 'workers': 8},
           'thorough': {'examples': 6000, 'workers': 16}}
 CAPS = programs.CAPS['fs']
 
